@@ -76,6 +76,8 @@ def gen_sim_config(rng, small=True, diseases=None, networks=None, demographics=N
             nets.append(dict(type='msm', duration=rng.choice([1, 3])))
         elif nm == 'embedding':
             nets.append(dict(type='embedding', duration=rng.choice([1, 3])))
+        elif nm == 'agepools':
+            nets.append(dict(type='agepools', cut=rng.choice([15, 30]), beta=rng.choice([0.1, 0.3])))
     if not nets:
         nets.append(dict(type='random', n_contacts=4, dur=0))
     cfg['networks'] = nets
@@ -118,7 +120,7 @@ def _disease(d):
     return cls(**d)
 
 
-def _network(n, n_agents):
+def _network(n, n_agents, cfg=None):
     import starsim as ss
     n = dict(n); t = n.pop('type')
     if t == 'random':
@@ -139,6 +141,12 @@ def _network(n, n_agents):
         return ss.MaternalNet()
     if t == 'null':
         return ss.NullNet()
+    if t == 'agepools':
+        # the documented MixingPools set-up: the same age brackets as sources and as destinations
+        cut = n.get('cut', 15)
+        names = [d.get('name', d['type']) for d in (cfg or {}).get('diseases', [])] or ['sir']
+        mk = lambda: {'young': ss.AgeGroup(0, cut), 'old': ss.AgeGroup(cut, None)}
+        return ss.MixingPools(diseases=names[0], beta=n.get('beta', 0.2), src=mk(), dst=mk(), contacts=n.get('contacts', [[2.4, 0.5], [0.9, 0.2]]))
     raise ValueError(t)
 
 
@@ -179,7 +187,7 @@ def build_sim(cfg, extra_interventions=None, extra_analyzers=None, **over):
         if k in cfg and cfg[k] is not None:
             pars[k] = cfg[k]
     pars['diseases'] = [_disease(d) for d in cfg.get('diseases', [])]
-    pars['networks'] = [_network(n, cfg['n_agents']) for n in cfg.get('networks', [])]
+    pars['networks'] = [_network(n, cfg['n_agents'], cfg) for n in cfg.get('networks', [])]
     dem = [_demog(d) for d in cfg.get('demographics', [])]
     if dem: pars['demographics'] = dem
     intv = [_intervention(i) for i in cfg.get('interventions', [])] + list(extra_interventions or [])
